@@ -409,6 +409,11 @@ class GenInterp(Interp):
             return out
         if name == 'float' and len(args) == 1 and ir.is_term(args[0]):
             return args[0]
+        if name == 'abs' and len(args) == 1 and not kwargs and not isinstance(args[0], AT):
+            v = args[0]
+            if isinstance(v, (int, float)) and not isinstance(v, bool):
+                return abs(v)
+            return ('abs', self.scalar(n, v))
         if name == 'isinstance':
             v, t = args
             tn = t.name if isinstance(t, Builtin) else None
@@ -462,6 +467,20 @@ def subst_var(t, name, val):
     if k in ir.BIN:
         return (k, subst_var(t[1], name, val), subst_var(t[2], name, val))
     raise ValueError(k)
+
+
+def z_coeffs(t, acc=None):
+    """All S with a node ('mul', S, ('var', 'z0')) in t: the std of the torch.normal draw."""
+    acc = [] if acc is None else acc
+    k = t[0]
+    if k == 'mul' and t[2] == ('var', 'z0'):
+        acc.append(t[1])
+        z_coeffs(t[1], acc)
+    elif k == 'pow' or k in ir.UN:
+        z_coeffs(t[1], acc)
+    elif k in ir.BIN:
+        z_coeffs(t[1], acc); z_coeffs(t[2], acc)
+    return acc
 
 
 def rename(t, vmap, pmap):
@@ -676,6 +695,7 @@ def emit(table):
            'From Coq Require Import Reals List ZArith String.', 'From ND.lib Require Import Expr.',
            'From ND.model Require Import AtomicGen.', 'Import ListNotations.', 'Open Scope string_scope.', '']
     det = []
+    stds = []
     names = []
     for e in table:
         nm = entry_name(e)
@@ -692,6 +712,10 @@ def emit(table):
             out.append(f'  Definition tensor_{k} : tinfo := mk_tinfo term_{k} {wrap} {coq_bool(t["len_ok"])} {coq_bool(t["rg"])} '
                        f'{coq_bool(t["fresh"])} {coq_bool(t["noise"])} {coq_bool(t["rand"])} {coq_bool(t["perm"])} {t["par_axis"]}%nat {mp}.')
             tnames.append(f'tensor_{k}')
+            if t['noise']:
+                for c in z_coeffs(t['term']):
+                    if c not in stds:
+                        stds.append(c)
             if not t['noise'] and t['wrap'] == 'none' and e['cls'] != 'GSph':
                 key = (t['term'], e['pos_guard'])
                 if key not in det:
@@ -710,6 +734,8 @@ def emit(table):
     out.append('Definition table : list entry :=\n  [' + ';\n   '.join(f'{n}.entry' for n in names) + '].\n')
     out.append('(* distinct formulas of the tensors without normal noise, with the positivity guard of their entry *)')
     out.append('Definition det_terms : list (expr * bool) :=\n  [' + ';\n   '.join(f'({coq_term(t)}, {coq_bool(g)})' for t, g in det) + '].\n')
+    out.append('(* distinct std factors S of the torch.normal draws (nodes  mean + S * z0) *)')
+    out.append('Definition std_terms : list expr :=\n  [' + ';\n   '.join(coq_term(t) for t in stds) + '].\n')
     return '\n'.join(out), det
 
 
